@@ -1,6 +1,7 @@
 import Driver.Util
 import Driver.Ops.Dec
 import EncodingRs.Model.Encoder
+import EncodingRs.Model.MaxLen
 /-!
 Driver operation `enc`: replays a whole history of `Encoder` calls against the model
 and checks that every call is admissible.
@@ -24,6 +25,8 @@ structure ECallRec where
   bytes : List Nat
   hasPending : Bool
   hadUnmappables : Option Bool
+  /-- `max_buffer_length_from_<src>_without_replacement(n)` / `…_if_no_unmappables(n)` asked before the call -/
+  q : Option (Option Nat × Option Nat)
 
 def parseECall (s : String) : Option ECallRec := do
   let kvs ← (s.splitOn ",").mapM parseKv
@@ -39,7 +42,15 @@ def parseECall (s : String) : Option ECallRec := do
     | some "1" => some true
     | some "0" => some false
     | _ => none
-  pure ⟨n, cap, l == "1", r, rd, w, hp == "1", hu⟩
+  let parseQ (x : String) : Option (Option Nat) := if x == "-" then some none else (x.toNat?).map some
+  let q ← match get "q" with
+    | none => some none
+    | some v => match v.splitOn "/" with
+      | [a, b] => do
+        let a ← parseQ a; let b ← parseQ b
+        pure (some (a, b))
+      | _ => none
+  pure ⟨n, cap, l == "1", r, rd, w, hp == "1", hu, q⟩
 
 def hexOfNat (n : Nat) : String :=
   let rec go : Nat → Nat → List Char
@@ -89,12 +100,17 @@ def checkEncRepl (E : EFam) (canAll : Bool) (utf16 : Bool) (s : E.σ) (src : Lis
       (List.range (2 * src.length + 3)).map fun j => List.replicate i Budget.unlimited ++ [Budget.full j]
   tryAll cands
 
-def runEncHistory (E : EFam) (canAll : Bool) (utf16 repl : Bool) (units : List Nat) (calls : List ECallRec) : String :=
+def runEncHistory (E : EFam) (canAll : Bool) (utf16 repl : Bool) (units : List Nat) (calls : List ECallRec)
+    (maxf : Nat → Option Nat × Option Nat) : String :=
   let rec go (i : Nat) (consumed : Nat) (s : E.σ) : List ECallRec → String
     | [] => "ok"
     | c :: t =>
       let src := (units.drop consumed).take c.n
       if src.length ≠ c.n then s!"call#{i}: source slice beyond the text" else
+      let qOk := match c.q with
+        | none => true
+        | some v => maxf c.n == v
+      if !qOk then s!"call#{i}: max_buffer_length queries: model={maxf c.n}" else
       let r := if repl then checkEncRepl E canAll utf16 s src c else checkEncRaw E utf16 s src c
       match r with
       | none => s!"call#{i}: not admissible (n={c.n} cap={c.cap} last={c.last} impl={c.res} read={c.read} bytes={c.bytes.length} hp={c.hasPending})"
@@ -121,7 +137,8 @@ def enc (op : String) (args : List String) : Option (Option String) :=
       | .utf8 | .utf16Be | .utf16Le | .replacement => true
       | _ => false
     let _ := i
-    pure (runEncHistory E canAll utf16 repl units calls)
+    pure (runEncHistory E canAll utf16 repl units calls
+      (fun n => (encMaxNoRepl utf16 e.variant n, encMaxIfNoUnmappables utf16 e.variant n)))
   | "enc", _ => some none
   | _, _ => none
 
